@@ -1,7 +1,7 @@
 (* C08 — treespec inspection, constructors, transform and compose are consistent.
    Statements only; proofs in proofs/SpecProofs.v and proofs/InspectProofs.v. *)
-From OptreeModel Require Import Base Tree Flatten Unflatten Spec ArraySpec Construct.
-From OptreeProofs Require Import SpecProofs InspectProofs ArrayProofs ConstructProofs.
+From OptreeModel Require Import Base Tree Flatten Unflatten Spec ArraySpec Construct ComposeArr.
+From OptreeProofs Require Import SpecProofs InspectProofs ArrayProofs ConstructProofs ComposeArrProofs.
 
 (* Every treespec flatten returns is the post-order encoding of a well-formed structured treespec
    (arity, num_leaves and num_nodes consistent at every node) whose leaf count is the number of
@@ -138,3 +138,20 @@ Example C08_example :
                   wf_stree (stree_of s) = true /\ length (st_children (stree_of s)) = 2%nat /\
                   st_leaves (st_compose (stree_of s) (stree_of s)) = 9%nat.
 Proof. vm_compute. do 3 eexists. repeat split. Qed.
+
+(* THE C++ PASS ITSELF. PyTreeSpec::Compose as treespec.cpp runs it — one pass over the outer node
+   array, every leaf replaced by a copy of the inner array, every other node kept with num_leaves and
+   num_nodes rescaled by the inner treespec's sizes, the two final consistency checks — returns the
+   encoding of the tree-level composition (or the same ValueError on mismatching options). *)
+Theorem C08_cpp_compose_pass :
+  forall a b, wf_stree (stree_of a) = true -> wf_stree (stree_of b) = true ->
+  arr_compose (spec_of a) (spec_of b) = match ss_compose a b with Ok j => Ok (spec_of j) | Err e => Err e end.
+Proof. exact arr_compose_spec. Qed.
+Print Assumptions C08_cpp_compose_pass.
+
+(* the node count of a composition *)
+Theorem C08_compose_nodes :
+  forall a b, wf_stree a = true ->
+  st_nodes (st_compose a b) = (st_nodes a - st_leaves a + st_leaves a * st_nodes b)%nat.
+Proof. exact compose_nodes. Qed.
+Print Assumptions C08_compose_nodes.
